@@ -41,6 +41,10 @@ CLAIMED["C40"] = dict(engine="E1", technique="frame condition (ghost version cou
     text="Proof for all inputs and all failure injections (false from initialize / time-step scaling, FAILURE from integrate, an exception from any user-code member including the energy and speed-of-sound computations): "
          "a call returning -1 never writes the output state d.s1; a successful integration exports exactly once; a prediction request never touches it.",
     note=TB_E1 + " d.s1 is abstracted by a ghost version counter bumped by exportStateData and the energy stores; exportStateData itself is assumed not to throw.")
+CLAIMED["C21"] = dict(engine="E2", technique="contracts over textbook elasticity definitions on the unmodified moduli/stiffness templates instantiated at a symbolic scalar; one SMT (QF_NRA) verification condition per clause and path",
+    text="Proof over the reals for all admissible constants: the six moduli conversions and their round trips, computeLambda/computeMu, computeIsotropicStiffnessTensor (= Hooke's law, symmetric, positive definite, moduli recovered by computeKGModuli/computeKappaMu, accepted by isIsotropic for any eps>0), "
+         "the 3D orthotropic tensor (= inverse of the engineering compliance) and, for all 7 modelling hypotheses x {UNALTERED, ALTERED}, the isotropic and orthotropic tensors equal the sub-block / plane-stress condensation of the 3D tensor. One known finding (AxisymmetricalGeneralisedPlaneStress ALTERED) is listed in known_findings.txt.",
+    note=TB_E2 + " DEFAULT axes convention only (PIPE/PLATE: C28). Uninitialised tensor entries are invisible to the symbolic scalar (it default-initialises to 0).")
 
 NOT_APPLICABLE = {
     "C03": "floating-point tolerance statement about iterative eigen-solvers (Jacobi/QL/Cardano with cos/acos); no contract within reach of CBMC-C or the real-arithmetic VC generator expresses it",
